@@ -60,6 +60,7 @@ type workerOut struct {
 	Samples      []string       `json:"samples"`
 	Skipped      int            `json:"skipped"`
 	JobStats     []jobStat      `json:"job_stats"`
+	Known        map[string]int `json:"known"`
 }
 
 type jobStat struct {
@@ -111,7 +112,22 @@ func worker(run *ev.Run, jobs []Job, opt Options) {
 			out.Skipped++
 			continue
 		}
-		e := &vsched.Explorer{Cfg: j.Cfg, Scenario: j.Scenario, Check: j.Check, Stats: vsched.NewStats(), MaxExecs: j.MaxExecs, StopAtFirst: true}
+		// a listed known finding does not stop the exploration of its scenario: it is counted and the search goes on,
+		// so that a different violation in the same scenario is still found
+		chk := func(x *vsched.Exec) (string, *vsched.Violation) {
+			oc, v := j.Check(x)
+			if v != nil {
+				if _, known := run.IsKnown(v.Sig); known {
+					if out.Known == nil {
+						out.Known = map[string]int{}
+					}
+					out.Known[v.Sig]++
+					return "known-finding:" + v.Sig, nil
+				}
+			}
+			return oc, v
+		}
+		e := &vsched.Explorer{Cfg: j.Cfg, Scenario: j.Scenario, Check: chk, Stats: vsched.NewStats(), MaxExecs: j.MaxExecs, StopAtFirst: true}
 		if opt.Budget > 0 {
 			e.Deadline = start.Add(opt.Budget)
 		}
@@ -255,6 +271,12 @@ func parent(run *ev.Run, jobs []Job, opt Options) {
 			tot.Outcomes[k] += v
 		}
 		tot.Viol = append(tot.Viol, o.Viol...)
+		for k, n := range o.Known {
+			if tot.Known == nil {
+				tot.Known = map[string]int{}
+			}
+			tot.Known[k] += n
+		}
 		tot.Samples = append(tot.Samples, o.Samples...)
 	}
 	if os.Getenv("VERIF_VERBOSE") != "" {
@@ -275,6 +297,9 @@ func parent(run *ev.Run, jobs []Job, opt Options) {
 		}
 		return tot.Viol[a].Job < tot.Viol[b].Job
 	})
+	for k := range tot.Known {
+		run.Violation(k, "", nil) // listed: prints the KNOWN-FINDING line at the end
+	}
 	for _, v := range tot.Viol {
 		run.Violation(v.Sig, v.Detail+"\n"+v.Trace, map[string]any{"job": v.Job, "path": v.Path, "cfg_p": v.P})
 	}
@@ -306,6 +331,7 @@ func parent(run *ev.Run, jobs []Job, opt Options) {
 		"max_steps":                     tot.MaxSteps,
 		"determinism_rechecks":          tot.Det,
 		"alternatives_beyond_budget":    tot.Pruned,
+		"known_finding_executions":      tot.Known,
 		"exhaustive":                    tot.JobsCapped == 0 && tot.Skipped == 0 && !opt.NotExhaustive,
 		"bounds":                        opt.Bounds,
 		"rule":                          opt.Rule,
